@@ -28,6 +28,7 @@
 //   * tuple assignment and therefore `tie(a,b) = t`
 //   * copy construction of a one-element tuple<int&> from a NON-const lvalue (the variadic converting constructor is
 //     selected and fails inside); copies are made from a const lvalue
+//   * make_tuple(ref(x)) for a class-type x (tuple_leaf brace-initialises X& from the reference_wrapper); int works
 //   * apply(f, pair) and apply(f, array) (etl::get<I> is looked up where apply is defined, before pair's overloads)
 //   * tuple_cat() without arguments, with a non-const lvalue argument when there are >= 2 arguments, with move-only
 //     elements (CTAD on the result needs copyable elements), with an rvalue tuple that has a reference element
